@@ -30,6 +30,14 @@ CHECKS = {
     note="State = tuple of member fingerprints (sound for this property: it only observes width and denotation). Widening simplify may over-approximate the object it is applied to. "
          "Trusted: amc/ref/bv.py walker.",
     design="DESIGN.md section 3, C13"),
+ "C17": dict(
+    category="model_checking",
+    technique="complete spec-driven enumeration of instruction words per ISA mode (every field walked, tail/ModRM/SIB/prefix menus) through decode, well-formedness, every formatter, pickle and execution; failures reduced to line-free signatures matched against KNOWN_FINDINGS.json",
+    text="For each of ~5600 (spec, mode) pairs of 22 ISA modules the enumerator produces the words that reach every setup function and mnemonic; each distinct byte string goes through the six phases. "
+         "The enumeration is deterministic, so the set of failing signatures of the pinned tree is fixed (recorded as known findings) and any new signature is a violation.",
+    note="Bound: fields walked one at a time (not the full cross product) except x86 Mod x RM; quick uses 4 prefix sets and the reduced tail menu; thorough adds all 65536 two-byte prefixes per mode. "
+         "~500 genuine defects of the pinned tree are listed in KNOWN_FINDINGS.json (signature = ISA, mode, phase, hook/mnemonic, exception type @ innermost function).",
+    design="DESIGN.md section 3, C17"),
  "C19": dict(
     category="model_checking",
     technique="bounded exhaustive enumeration of map pairs x configurations on the real merge(); per-location alternative-set membership via independent walker, plus composition with concrete states",
